@@ -41,6 +41,8 @@ def one(rec, hub, tier, seed, letters, pat, pi, what, ai, assign):
     elif what == "write":
         drv.do_writes(hub, U, letters, letters, assign, rng, "dyadic")
     elif what == "misc":
+        if ai % 4 == 0:
+            drv.do_big_reads_writes(hub.rec, hub, rng)
         sub = letters[: ai % (len(letters) + 1)]
         drv.do_errors(hub, U, sub, rng)
         drv.do_items_where_split(hub, U, sub, rng)
